@@ -11,9 +11,11 @@ THEOREMS = ['validity_exact', 'valid_layouts_have_a_value', 'value_length_is_lay
             'closure_getitem_partial', 'closure_fields', 'closure_of_validity_partial', 'expand_keeps_type',
             'expand_keeps_value', 'result_type_at_axis', 'result_type_num', 'result_type_localindex',
             'num_result_typed', 'localindex_result_typed']
+UNION_LAW = ('simplify', 'fillna', 'getitem', 'rpad')     # harness/unionlaw.py: the union row law for these operations (check.py runs it and merges the result)
 RULE = ('layouts: value-first random type/value/encoding (all node classes, widths, offset origins, option encodings, '
-        'string parameters); invalid stream = one documented rule broken at one random node. non-trivial = layout has '
-        '>= 2 nodes; distinct by case text')
+        'string parameters); invalid stream = one documented rule broken at one random node; closure stream = a third of '
+        'the generated cases of the C01 C03 C05 C06 C07 C09 C10 checks (operations on valid inputs), whose results are '
+        're-validated by the exact validity model. non-trivial = layout has >= 2 nodes; distinct by case text')
 ASSUMPTIONS = ['Valid is my transcription of the documented rules (DESIGN C11); IndexedArray counts as option-like for the '
                'nesting rule (as simplify_optiontype treats it); categorical parameter not modelled']
 
@@ -35,7 +37,58 @@ def cases(rng, tier):
     return out
 
 
+OWNERS = ['c01', 'c03', 'c05', 'c06', 'c07', 'c09', 'c10']   # closure: operations of these checks, results re-validated
+
+
+def closure_cases(rng, tier):
+    import importlib
+    out = []
+    for o in OWNERS:
+        m = importlib.import_module('props.' + o)
+        cs = m.cases(rng, 'quick')
+        keep = cs if tier == 'thorough' else cs[:max(400, len(cs) // 3)]
+        for c in keep:
+            c.id = o + '_' + c.id
+            c.meta['owner'] = o
+            c.meta.setdefault('tags', {})['stream'] = 'closure:' + o
+            out.append(c)
+    return out
+
+
+def run(cases, tier, rng):
+    """validity stream (exactness) + closure stream: every operation result on a valid input must itself be valid.  Value
+    disagreements of the closure stream belong to the owning property and are dropped here; only an INVALID RESULT
+    (verdict 'viol closure') or a crash of validityerror counts"""
+    import sys
+    import check
+    mod = sys.modules[__name__]
+    if not any(c.op != 'valid' for c in cases) and len(cases) > 50:      # not a replay: add the closure stream
+        cases = cases + closure_cases(rng, tier)
+    s = check.default_run(mod, cases, tier)
+    keep = []
+    for f in s['findings']:
+        own = any(l.startswith('(v') or l.startswith('(i') or l.startswith('(corpus') for l in f['case_lines'][:1])
+        if own or 'viol closure' in ' '.join(f['case_lines']) or 'viol closure' in f.get('what', ''):
+            keep.append(f)
+    s['findings'] = keep
+    ok = {}
+    for k, v in s['corr_obligations'].items():
+        ok[k] = v if k in ('corr:valid',) else True
+    bad_closure = [f for f in keep if 'viol closure' in ' '.join(f['case_lines']) + f.get('what', '')
+                   and not check.match_known(check.KNOWN, 'C11', dict(signature=f.get('signature')))]
+    ok['impl:closure(results of operations are valid)'] = not bad_closure
+    s['corr_obligations'] = ok
+    return s
+
+
 def signature(c, impl, v):
+    o = c.meta.get('owner')
+    if o:
+        import importlib
+        m = importlib.import_module('props.' + o)
+        if hasattr(m, 'signature'):
+            return m.signature(c, impl, v)
+        return None
     if impl.startswith('crash'):
         lay = c.layouts[0]
         if '(par string' in lay or '(par bytestring' in lay:
